@@ -25,6 +25,13 @@ import (
 type Policy struct {
 	Mode    string `json:"mode"`              // "random" | "preempt" | "starve" | "jitter"
 	Choices []int  `json:"choices,omitempty"` // choice vector, used cyclically
+	// mode "pct" (probabilistic concurrency testing, Burckhardt et al.): goroutine number i (creation
+	// order) gets priority Prio[i mod len]; the runnable goroutine with the highest priority always runs;
+	// at the scheduling points listed in Preempt the running goroutine drops below everyone else.
+	Prio    []int  `json:"prio,omitempty"`
+	FairAge int    `json:"fairage,omitempty"` // overrides the number of scheduling points a runnable goroutine may be passed over (default 48)
+	Lifo    bool   `json:"lifo,omitempty"`    // default choice = the most recently created runnable goroutine (depth-first) instead of the oldest
+	Park    []bool `json:"park,omitempty"`    // mode preempt: whether the i-th preemption also stalls the goroutine until nothing else can run
 	Preempt []int  `json:"preempt,omitempty"` // step numbers at which the running goroutine is preempted (mode preempt)
 	Delays  []int  `json:"delays,omitempty"`  // jitter: delay classes, indexed by call count
 }
@@ -45,6 +52,7 @@ type gor struct {
 	// parked (mode "starve"): preempted and passed over, also by the fairness rule, until no other
 	// goroutine can run
 	parked bool
+	prio   int // mode "pct": the runnable goroutine with the highest priority runs
 }
 
 // S is one scheduler instance; install it for the duration of one case.
@@ -235,6 +243,15 @@ func (s *S) runnable() []*gor {
 		out = parked
 	}
 	sort.Slice(out, func(i, j int) bool { return out[i].seq < out[j].seq })
+	if s.pol.Mode == "pct" {
+		sort.Slice(out, func(i, j int) bool { return out[i].prio > out[j].prio })
+	}
+	if s.pol.Lifo {
+		// newest goroutine first: index 0 (the default choice) is the most recently created one
+		for i, j := 0, len(out)-1; i < j; i, j = i+1, j-1 {
+			out[i], out[j] = out[j], out[i]
+		}
+	}
 	return out
 }
 
@@ -269,6 +286,9 @@ func (s *S) awaitToken(g *gor) bool {
 
 func (s *S) register(name string) *gor {
 	g := &gor{id: goid(), seq: s.nextSeq, name: name, state: stRunnable, since: s.step}
+	if len(s.pol.Prio) > 0 {
+		g.prio = s.pol.Prio[g.seq%len(s.pol.Prio)]*1000 - g.seq // distinct
+	}
 	s.nextSeq++
 	s.everRegistered = true
 	s.gs[g.id] = g
@@ -358,10 +378,24 @@ func (s *S) Yield(site string) {
 			oldest = x
 		}
 	}
-	if s.step-oldest.since > fairAge {
+	age := fairAge
+	if s.pol.FairAge > 0 {
+		age = s.pol.FairAge
+	}
+	if s.step-oldest.since > age {
 		next = oldest
 	} else {
 		switch s.pol.Mode {
+		case "pct":
+			for _, p := range s.pol.Preempt {
+				if p == s.step {
+					g.prio = -s.step // below every initial priority and every earlier drop
+				}
+			}
+			if r[0].prio <= g.prio {
+				return // still the highest
+			}
+			next = r[0]
 		case "starve":
 			// like preempt, but the preempted goroutine is not scheduled again until every other
 			// goroutine is blocked or done: one goroutine stalls at an arbitrary point for as long
@@ -379,9 +413,12 @@ func (s *S) Yield(site string) {
 			g.parked = true
 		case "preempt":
 			hit := false
-			for _, p := range s.pol.Preempt {
+			for i, p := range s.pol.Preempt {
 				if p == s.step {
 					hit = true
+					if i < len(s.pol.Park) && s.pol.Park[i] {
+						g.parked = true // this preemption stalls the goroutine (see "starve")
+					}
 				}
 			}
 			if !hit {
